@@ -26,7 +26,11 @@ META = {
              "follows them, and that no two encodings coincide or prefix one another. JSON reading is modelled too (JsonModel.v: "
              "grammar, integer/float classification, exact correctly rounded decimal->binary64, strings with every escape form) "
              "and diffed against the implementation byte for byte through JSON->MessagePack on number/string spellings, rounding "
-             "halfway cases, subnormals and the overflow threshold (no theorem is claimed about the conversion itself). What the third-party codecs then make of those calls is checked on the "
+             "halfway cases, subnormals and the overflow threshold (no theorem is claimed about the conversion itself). serde_json's "
+             "compact WRITER is modelled as well (JsonWriteModel.v: shortest decimal integers, the escape table, no whitespace; "
+             "diffed against xt's JSON->JSON output on float-free inputs) and it is proved that the reader reads back exactly the "
+             "events of the value written, for values of any size below the recursion limit, whatever follows (floats under an "
+             "explicit premise on ryu's spelling). What the third-party codecs then make of those calls is checked on the "
              "implementation: generated documents of the common model and each pair's extensions, several spellings per value "
              "(escape forms, quoting and block styles, whitespace, exponent forms, non-minimal MessagePack widths), all 16 format "
              "pairs, slice and reader, explicit and detected source, output read back with an independent reader (Python json, "
